@@ -121,4 +121,19 @@ def monitor(ctx, extended=False):
             classes.add(('slurry', p['fluid'], p['D50'] > 2e-3))
         except Exception as e:   # noqa
             ctx.violation(f'slurry object raised {type(e).__name__}: {e}', {'slurry': p}, key='curves')
+    # the public graded-sand call on raw gradings of 3 to 32 given points (D15/D50/D85, with an extra low point, sieve curves)
+    from props.c12 import gen_case
+    for _ in range(ctx.n(60, 3000) * (2 if extended else 1)):
+        p, pts, kind, (nu, rhol, dl) = gen_case(ctx.rng)
+        inp = {'points': {str(k): v for k, v in pts.items()}, 'Dp': p['Dp'], 'fluid': p['fluid'], 'rhos': p['rhos'], 'Cv': p['Cv']}
+        for v in (0.1, ctx.rng.uniform(0.5, 3.0), ctx.rng.uniform(3.0, 10.0)):
+            for c in (True, False):
+                ctx.count('evaluations')
+                try:
+                    r = F.Erhg_graded(dict(pts), v, p['Dp'], E.EPS, nu, rhol, p['rhos'], p['Cv'], Cvt_eq_Cvs=c, get_dict=(c and v == 0.1))
+                    if not finite(r):
+                        ctx.violation(f'Erhg_graded on a {len(pts)}-point grading returned a non-finite value {str(r)[:120]}', dict(inp, vls=v, Cvt_eq_Cvs=c), key='graded')
+                except Exception as e:   # noqa
+                    ctx.violation(f'Erhg_graded on a {len(pts)}-point grading raised {type(e).__name__}: {e}', dict(inp, vls=v, Cvt_eq_Cvs=c), key='graded')
+        classes.add(('graded', kind.split(':')[0]))
     ctx.stats['distinct_nontrivial'] = len(classes)
